@@ -535,7 +535,15 @@ class SymNum:
         return "<sym>"
 
     def __repr__(self):
-        return "<sym>"
+        sp = Space.cur
+        reg = getattr(sp, "repr_registry", None) if sp is not None else None
+        if reg is None:
+            return "<sym>"
+        # text round trips: a symbolic number is written as an identifier that the reader's
+        # namespace resolves back to this very object
+        name = "_sym%d_" % len(reg)
+        reg[name] = self
+        return name
 
     __str__ = __repr__
 
